@@ -33,7 +33,10 @@ LEVEL_TEXT = ('All 513 reaction rows (exhaustive over rows) are evaluated throug
               'grid and log-uniform random environments spanning the quantified ranges and compared with an '
               'independent 80-digit evaluation of the documented chain solutions; relations between executions and '
               'Sample workloads cover mass proportionality, rest decay, exposure monotonicity, fast/epithermal '
-              'selection and abundance weighting.  Environments are sampled, so the claim is exploration.')
+              'selection and abundance weighting.  Numbers are handed over as Python int / float and numpy '
+              'int64 / int32 / float64 / float32 scalars (integers up to 1e16 n/cm2/s), rest times as list / tuple / '
+              'numpy array; Sample objects are re-read after later calculations on other objects and re-used for '
+              'several calculations.  Environments are sampled, so the claim is exploration.')
 LEVEL_NOTE = ('Trusted: mpmath, the csv-based reader pvmon/ref/activation_ref.py, pvmon/ref/masses.py, the spreadsheet '
               'constant 1.6278e19 and the documented selection rules (Cd ratio >= 1, fast ratio) as specification. '
               'Tolerance 1e-5 relative with 1e-300 absolute floor (DESIGN 5 C14); worst error per branch is reported.')
@@ -47,6 +50,13 @@ ASSUMPTIONS = [
     'tolerance: relative 1e-5, absolute floor 1e-300; a 2n or large-argument burn-up mismatch is attributed to a '
     'listed cancellation finding only within 64*2^-52*kappa of the reference',
     'mpmath at 80 digits (precision doubled while cancellation exceeds 1e40)',
+    'the chain solution is evaluated at exactly the number passed (Python int, numpy int64/int32, numpy float64, '
+    'numpy float32 widened to double); with a numpy float32 argument numpy keeps the library arithmetic in single '
+    'precision, so such a value is judged (tolerance unchanged) only for results >= 1e-25 uCi, rest decay '
+    'lambda*t <= 30 and a conditioning <= 10 of the quantities that carry the float32 rounding; the two-step '
+    "('2n') rows are not judged with float32 fluence / mass / exposure",
+    'a Sample object re-read after other Sample objects were calculated must still serve its own result '
+    '(it is held to its own reference again whenever what it serves has changed)',
 ]
 
 TOL = 1e-5
@@ -410,6 +420,12 @@ def _sample_case(rng, T):
     c = _random_forms(rng, _random_env(rng), f32=False, p=0.25)
     c['atoms'] = _random_atoms(rng, T, _state['mm'])
     c['abundance'] = rng.choice(['NIST', 'IAEA'])
+    if rng.random() < 0.12:
+        # the documented defaults, left out of the call: exposure 1 h, rest times (0, 1, 24, 360), NIST abundance
+        c.update(exposure=1, rest=[0, 1, 24, 360], abundance='NIST', use_defaults=True)
+        c.pop('rest_container', None)
+        for name in ('exposure', 'rest'):
+            (c.get('forms') or {}).pop(name, None)
     return c
 
 
@@ -868,7 +884,12 @@ def _calculate_sample(ctx, case, sample=None, env=None):
     def solver(r, mass, exposure):
         return R.solve(r, mass, case['fluence'], case['Cd_ratio'], case['fast_ratio'], exposure)
     try:
-        sample.calculate_activation(env, exposure=exposure, rest_times=rest, abundance=abundance)
+        if case.get('use_defaults'):
+            sample.calculate_activation(env)
+            rest = exposure = None
+            ctx.count('sample.called_with_defaults')
+        else:
+            sample.calculate_activation(env, exposure=exposure, rest_times=rest, abundance=abundance)
     except Exception as exc:
         _state['anomalies'] = []
         ctx.evaluated(what='no-exception')
@@ -987,6 +1008,8 @@ def check_sample(ctx, case):
             if not hasattr(so, name):
                 continue
             cur = getattr(so, name)
+            if passed is None:
+                passed = {'rest_times': (0, 1, 24, 360), 'exposure': 1}[name]    # the documented defaults
             ctx.evaluated(what='sample-reread-attribute')
             same = cur is passed
             if not same and name == 'rest_times':
